@@ -24,4 +24,19 @@ TEXT = {
         "level": "Generated histories at fan-outs 3..12, 32, 255; every Get/PrefixSum/SubsetAccumulation/SplitAcc/Total/iteration answer compared with a sorted map and the stored child sums re-derived from the leaves every 8 operations. Histories with an effective Remove are a recorded known finding; everything else must be clean.",
         "note": "Trusted: the harness KV store and map model. SubsetAccumulation is only queried with start <= end (the API documents an inclusive range).",
     },
+    "C04": {
+        "technique": "runtime monitor: differential oracle (exact weighted-product formula in 700-bit floats, exact rationals for proportional bounds and the stableswap invariant) over generated operation sequences on in-memory pools",
+        "level": "Generated short operation sequences on real balancer and stableswap pool models; every swap/join/exit result compared two-sided with the exact formula within reserve x documented power precision, value-per-share invariant before/after, proportional bounds and stableswap invariant exactly, closed loops in the integer-weight-ratio family at whole-unit resolution.",
+        "note": "Trusted: the harness's big.Float exp/ln, math/big. Tolerances are relative to the reserve being multiplied (DESIGN C04). Keeper-level messages for the same operations are exercised by the C02/C05 monitors, not here.",
+    },
+    "C13": {
+        "technique": "runtime monitor: differential oracle (700-bit reference series, exact integer root test, re-implemented tolerance predicate) over generated inputs incl. domain edges",
+        "level": "Exp2, logarithms, Pow, monotone square roots, significant-figure rounding and both binary searches executed on generated inputs and compared with high-precision references against the stated bounds; out-of-domain inputs must fail.",
+        "note": "Trusted: the harness's own exp/ln series at 700 bits. Pow hitting its documented 150000-term iteration limit (bases within ~1e-15 of 0 or 2) and CustomBaseLog bases within 1e-30 of 1 are loud failures and counted as outcomes.",
+    },
+    "C17": {
+        "technique": "runtime monitor: reference-model (epoch grid) + trace checker over hook invocations of the real epochs keeper with scripted faulty subscribers",
+        "level": "Real x/epochs keeper, MultiEpochHooks and ApplyFuncIfNoError driven over generated block-time sequences with 1-4 scripted subscribers (error, three panic kinds, out-of-gas, partial writes); timers, call trace and subscriber key spaces compared with the model after every block.",
+        "note": "Keeper-level (D0) part only in this revision; the integrated part with the real hook chain of the app is added with the app monitors. Trusted: the harness store and context.",
+    },
 }
